@@ -1138,7 +1138,7 @@ func TestCheck(t *testing.T) {
 		c, nested, cl := genReval(rt)
 		kReval.Check(rt, c, nested, cl...)
 	})
-	rec.Rapid(t, "shared", rec.N(40, 200), func(rt *rapid.T) {
+	rec.Rapid(t, "shared", rec.N(40, 100), func(rt *rapid.T) {
 		c, nt, cl := genShared(rt)
 		kShared.Check(rt, c, nt, cl...)
 	})
